@@ -43,7 +43,8 @@ def normalise(ops, obs):
 
 
 def _metaclasses():
-    """the metaclass itself, a plain subclass of it, and the usual abstract-singleton combination with abc.ABCMeta"""
+    """the metaclass itself, a plain subclass of it, the usual abstract-singleton combination with abc.ABCMeta, and a
+    subclass under which the class objects themselves are falsy"""
     import abc
     from edgegraph.structure import singleton
 
@@ -52,7 +53,13 @@ def _metaclasses():
 
     class AbcMeta(singleton.TrueSingleton, abc.ABCMeta):
         pass
-    return [singleton.TrueSingleton, SubMeta, AbcMeta]
+
+    class FalsyClassMeta(singleton.TrueSingleton):
+        """a metaclass that gives its CLASSES a length (a registry of plugins, an enum-like class ...): the class object
+        itself is falsy while that length is 0"""
+        def __len__(cls):
+            return 0
+    return [singleton.TrueSingleton, SubMeta, AbcMeta, FalsyClassMeta]
 
 
 def make_classes(parents, falsy=None, metas=None):
@@ -92,7 +99,7 @@ class History(Leg):
     checkfn = "tcheck"
     case_type = "list top * list (option (nat * list (nat * nat)))"
     rule = ("random histories (len 3-24) of Construct(class,args) (1 in 10 with an __init__ that raises, 1 in 10 with an __init__ that clears all singletons while it runs)/Clear(class)/Clear(all) over 2-4 classes incl. "
-            "parent/child pairs, 2 in 5 root classes with falsy instances (__len__ == 0 or __bool__ False), 2 in 5 root classes using the metaclass through a subclass of it (plain, or combined with abc.ABCMeta); non-trivial = contains a clear followed by a re-construction; distinct = distinct op list")
+            "parent/child pairs, 2 in 5 root classes with falsy instances (__len__ == 0 or __bool__ False), 2 in 5 root classes using the metaclass through a subclass of it (plain, combined with abc.ABCMeta, or one that makes the class objects falsy); non-trivial = contains a clear followed by a re-construction; distinct = distinct op list")
     quick_n = 600
     thorough_n = 20000
 
@@ -113,7 +120,7 @@ class History(Leg):
                 else:
                     ops.append(["X", None])
             falsy = [rng.choice([0, 0, 0, 1, 2]) if p is None else 0 for p in parents]
-            metas = [rng.choice([0, 0, 0, 1, 2]) if p is None else 0 for p in parents]
+            metas = [rng.choice([0, 0, 0, 1, 2, 3]) if p is None else 0 for p in parents]
             yield {"parents": parents, "ops": ops, "falsy": falsy, "metas": metas}
 
     def observe(self, case):
